@@ -1,7 +1,7 @@
 """C13 - posterior samples are exact affine images of the normal draws.
 
 The library reaches randomness only through probdiffeq.backend.random.  The harness replaces
-`split` by a labelling scheme (child labels k*B+i+1, injective) and `normal` by a table lookup
+`split` by a labelling scheme (child labels k*M1 + (i+1)*M2 in wrapping 64-bit arithmetic: distinct children of one key always differ, labels of different keys coincide with probability ~2^-64 per pair) and `normal` by a table lookup
 by label, which turns a sample into a differentiable function of the table of base draws.
 """
 
@@ -31,7 +31,7 @@ RULE = (
 ASSUMPTIONS = ["x64; jacobian_materialize(); IWP priors"]
 REQUIRED_LABELS = ["src:posterior", "src:prior", "fact:dense", "fact:isotropic", "fact:blockdiag", "shape:()", "shape:(n,)", "shape:(n,m)"]
 MAX_INCONCLUSIVE = 0.4
-B = 4
+M1, M2 = 6364136223846793005, 1442695040888963407  # odd 64-bit multipliers (wrapping int64 arithmetic); any split width is supported
 
 
 def strategy(ctx):
@@ -91,9 +91,7 @@ class Patch:
         self.orig = (R.split, R.normal)
 
         def split(key, num):
-            if num >= B:
-                raise RuntimeError("harness: label base too small")
-            return key * B + jnp.arange(1, num + 1, dtype=key.dtype)
+            return key * jnp.asarray(M1, dtype=key.dtype) + jnp.arange(1, num + 1, dtype=key.dtype) * jnp.asarray(M2, dtype=key.dtype)
 
         def normal(key, /, shape, dtype=None):
             if self.mode == "record":
@@ -189,10 +187,40 @@ def check_case(case):
     big = np.max(dg.reshape(N, n, d), axis=0).reshape(-1)  # per-coordinate largest std over time
     floor = np.tile(big, N) * 1e-5
     sc = np.outer(dg + floor, dg + floor) + 1e-300
-    eg = float(np.max(np.abs(gram - J) / sc))
-    res.metric("gram/tol", eg / 1e-6)
-    if not eg <= 1e-6:
-        res.violate("gram" + (":gross" if eg > 1e-3 else ""), f"Gram matrix of the sampling map differs from the joint covariance by {eg:.3e} (correlation-normalised)")
+    # condition-aware, entrywise: evaluating the chain x_i = A_i x_{i+1} + L_i xi_i in float64 carries errors proportional to the
+    # sum of the absolute values of the terms (|A_i| ... |A_{j-1}| |P_j| ... : products of backward gains cancel massively at small
+    # steps / high orders - measured: 2e13 x the result for the highest coefficient at h = 0.01, n = 5), not to the result. Entries
+    # whose bound exceeds 1e-3 (correlation-normalised) are not compared (counted), the others at max(1e-6, 64 eps x sum |terms|).
+    tol = np.full_like(J, 1e-6)
+    if case["src"] != "prior" and _LAST_FACTORS[0] is not None:
+        bw, PT = _LAST_FACTORS[0]
+        Gabs = np.zeros_like(J)
+        nd = n * d
+        diag_abs = [None] * N
+        diag_abs[-1] = np.abs(PT)
+        for i in range(N - 2, -1, -1):
+            Aa = np.abs(bw[i][0])
+            diag_abs[i] = Aa @ diag_abs[i + 1] @ Aa.T + np.abs(bw[i][2])
+        for j in range(N):
+            Mx = diag_abs[j]
+            Gabs[j * nd : (j + 1) * nd, j * nd : (j + 1) * nd] = Mx
+            for i in range(j - 1, -1, -1):
+                Mx = np.abs(bw[i][0]) @ Mx
+                Gabs[i * nd : (i + 1) * nd, j * nd : (j + 1) * nd] = Mx
+                Gabs[j * nd : (j + 1) * nd, i * nd : (i + 1) * nd] = Mx.T
+        tol = np.maximum(tol, 64.0 * np.finfo(float).eps * Gabs / sc)
+    checkable = tol <= 1e-3
+    if not np.all(checkable):
+        res.label("gram:some_entries_illconditioned")
+    if not np.any(checkable):
+        res.label("gram:skipped_illconditioned")
+        return res
+    ratio = np.where(checkable, (np.abs(gram - J) / sc) / tol, 0.0)
+    eg = float(np.max(np.where(checkable, np.abs(gram - J) / sc, 0.0)))
+    worst = float(np.max(ratio))
+    res.metric("gram/tol", worst)
+    if not worst <= 1.0:
+        res.violate("gram" + (":gross" if eg > 1e-3 else ""), f"Gram matrix of the sampling map differs from the joint covariance by {eg:.3e} (correlation-normalised; {worst:.1f} x the entrywise condition-aware tolerance)")
     return res
 
 
@@ -242,6 +270,40 @@ def _prior_sequence(case):
 
 
 _CACHE = {}
+_LAST_FACTORS = [None]
+
+
+def _joint_from_factors(bw, mT, PT, N, perturb):
+    """Joint law over all output times from the terminal marginal and the dense backward conditionals (50 digits).
+    perturb > 0: every entry of the factors is moved by a relative `perturb` with a deterministic +-1 pattern - the
+    distance between the two joint laws is the accuracy any float64 evaluation of the same factors can attain."""
+    Nmp = K.Num(mp=True)
+
+    def pt(x):
+        x = np.asarray(x, float)
+        if perturb:
+            sign = np.where(np.arange(x.size).reshape(x.shape) % 2 == 0, 1.0, -1.0)
+            x = x * (1.0 + perturb * sign)
+        return Nmp.arr(x)
+
+    means, covs = [None] * N, [None] * N
+    means[-1], covs[-1] = pt(mT), Nmp.arr(np.asarray(PT, float))
+    A_list = [None] * (N - 1)
+    offset_nonzero = False
+    for i in range(N - 2, -1, -1):
+        A, b, Q = pt(bw[i][0]), pt(bw[i][1]), Nmp.arr(np.asarray(bw[i][2], float))
+        A_list[i] = A
+        offset_nonzero = offset_nonzero or bool(np.any(np.asarray(bw[i][1]) != 0))
+        means[i] = A @ means[i + 1] + b
+        covs[i] = A @ covs[i + 1] @ A.T + Q
+    joint = {}
+    for j in range(N):
+        Mx = covs[j]
+        joint[(j, j)] = Nmp.to_float(Mx)
+        for i in range(j - 1, -1, -1):
+            Mx = A_list[i] @ Mx
+            joint[(i, j)] = Nmp.to_float(Mx)
+    return np.asarray([Nmp.to_float(m) for m in means]), joint, offset_nonzero
 
 
 def _posterior_sequence(res, case):
@@ -288,27 +350,11 @@ def _posterior_sequence(res, case):
         raise common.Inconclusive("solve not finite (method limit at this tolerance)")
     N = len(times)
     bw = ssmcase.backward_dense(out, cfg)
-    Nmp = K.Num(mp=True)
     mT, PT = np.asarray(out["post_marg_mean"], float), np.asarray(out["post_marg_cov"], float)
-    means, covs = [None] * N, [None] * N
-    means[-1], covs[-1] = Nmp.arr(mT), Nmp.arr(PT)
-    A_list = [None] * (N - 1)
-    offset_nonzero = False
-    for i in range(N - 2, -1, -1):
-        A, b, Q = (Nmp.arr(x) for x in bw[i])
-        A_list[i] = A
-        offset_nonzero = offset_nonzero or bool(np.any(bw[i][1] != 0))
-        means[i] = A @ means[i + 1] + b
-        covs[i] = A @ covs[i + 1] @ A.T + Q
-    joint = {}
-    for j in range(N):
-        Mx = covs[j]
-        joint[(j, j)] = Nmp.to_float(Mx)
-        for i in range(j - 1, -1, -1):
-            Mx = A_list[i] @ Mx
-            joint[(i, j)] = Nmp.to_float(Mx)
+    means, joint, offset_nonzero = _joint_from_factors(bw, mT, PT, N, 0.0)
+    _LAST_FACTORS[0] = (bw, PT)
     res.nontrivial = N >= 3 and offset_nonzero
-    means_f = np.asarray([Nmp.to_float(m) for m in means])
+    means_f = means
     # the returned smoothing means must be what the factorisation implies (also checked in C03)
     sabs = [None] * N
     sabs[-1] = np.abs(mT)
